@@ -3,6 +3,7 @@ package main
 // Mapping from Go types to SMT sorts.
 
 import (
+	"crypto/sha1"
 	"fmt"
 	"go/types"
 	"strings"
@@ -125,6 +126,10 @@ func (r *sortReg) mapValSort(m *types.Map) string {
 
 func (r *sortReg) structSort(named types.Type, st *types.Struct) string {
 	key := typeKey(named)
+	if len(key) > 120 {
+		// anonymous struct types print with all their fields and tags: keep the name short but unique
+		key = fmt.Sprintf("anon_%x", sha1.Sum([]byte(key)))[:21] + "_" + key[:40]
+	}
 	name := "|S_" + sanitize(key) + "|"
 	if _, ok := r.structs[name]; ok {
 		return name
